@@ -57,6 +57,25 @@ class SStr(Sym):
             return SStr(z3.Concat(o, self.e) if reflected else z3.Concat(self.e, o))
         raise Unsupported(f"string {op}")
 
+    def sym_getitem(self, ex, k):
+        e = self.e
+        n = z3.Length(e)
+        if isinstance(k, int):
+            # s[k] / s[-k]: IndexError outside the string
+            idx = z3.IntVal(k) if k >= 0 else n + k
+            if not ex.decide(z3.And(idx >= 0, idx < n), "str-index-in-range"):
+                raise RaiseSignal(IndexError("string index out of range"))
+            return SStr(z3.SubString(e, idx, 1))
+        if isinstance(k, slice) and k.step is None and all(x is None or isinstance(x, int) for x in (k.start, k.stop)):
+            def clamp(x, default):
+                if x is None:
+                    return default
+                v = z3.IntVal(x) if x >= 0 else n + x
+                return z3.If(v < 0, 0, z3.If(v > n, n, v))
+            lo, hi = clamp(k.start, z3.IntVal(0)), clamp(k.stop, n)
+            return SStr(z3.SubString(e, lo, z3.If(hi > lo, hi - lo, 0)))
+        raise Unsupported("string subscript")
+
     def sym_getattr(self, ex, name):
         e = self.e
         if name == "startswith":
